@@ -1,1 +1,134 @@
-fn main(){}
+//! dv — the worker binary: one sub-command per check (DESIGN §3.3).
+//!
+//!   dv <check> --tier quick|thorough --seed N --shard i/n --out FILE [--crumb FILE] [--lane NAME] [--scale F] [--set k=v]
+//!   dv replay FILE
+//!   dv list
+
+mod common;
+mod replay;
+mod rt;
+
+use common::*;
+use monitors::json::J;
+use monitors::Breadcrumb;
+use refmodel::GenCtx;
+
+fn main() {
+    let args: Vec<String> = std::env::args().collect();
+    if args.len() < 2 {
+        eprintln!("usage: dv <check> [options] | dv replay FILE | dv list");
+        std::process::exit(2);
+    }
+    monitors::install_panic_hook();
+    let check = args[1].clone();
+    let mut tier = match std::env::var("VERIF_TIER").ok().as_deref() {
+        Some("thorough") => Tier::Thorough,
+        _ => Tier::Quick,
+    };
+    let mut seed: u64 = std::env::var("VERIF_SEED").ok().and_then(|s| s.parse().ok()).unwrap_or(1);
+    let mut shard = 0usize;
+    let mut shards = 1usize;
+    let mut out = None;
+    let mut crumb = None;
+    let mut lane = "dbg".to_string();
+    let mut scale = 1.0f64;
+    let mut resume_after = None;
+    let mut extra = std::collections::BTreeMap::new();
+    let mut positional = Vec::new();
+    let mut i = 2;
+    while i < args.len() {
+        let a = args[i].as_str();
+        let mut val = || {
+            i += 1;
+            args.get(i).cloned().unwrap_or_else(|| {
+                eprintln!("missing value for {a}");
+                std::process::exit(2)
+            })
+        };
+        match a {
+            "--tier" => tier = if val() == "thorough" { Tier::Thorough } else { Tier::Quick },
+            "--seed" => seed = val().parse().expect("seed"),
+            "--shard" => {
+                let v = val();
+                let (a, b) = v.split_once('/').expect("i/n");
+                shard = a.parse().expect("shard");
+                shards = b.parse().expect("shards");
+            }
+            "--out" => out = Some(val()),
+            "--crumb" => crumb = Some(val()),
+            "--lane" => lane = val(),
+            "--scale" => scale = val().parse().expect("scale"),
+            "--resume-after" => resume_after = Some(val().parse().expect("resume")),
+            "--set" => {
+                let v = val();
+                let (k, x) = v.split_once('=').expect("k=v");
+                extra.insert(k.to_string(), x.to_string());
+            }
+            other => positional.push(other.to_string()),
+        }
+        i += 1;
+    }
+
+    // all real work happens on a thread with a large (virtual) stack, so that incidental nesting cannot kill the worker
+    let stack = if cfg!(miri) { 64 << 20 } else { 1 << 30 };
+    let handle = std::thread::Builder::new()
+        .stack_size(stack)
+        .spawn(move || {
+            let reg = subjects::registry();
+            let gen = GenCtx { tz_names: sbase::tz_names(), ..GenCtx::default() };
+            let mut ctx = Ctx {
+                check: check.clone(),
+                tier,
+                seed,
+                shard,
+                shards,
+                out,
+                lane,
+                scale,
+                reg,
+                crumb: Breadcrumb::open(crumb.as_deref()),
+                gen,
+                resume_after,
+                extra,
+            };
+            let started = std::time::Instant::now();
+            let mut acc = Acc::new();
+            let code = match check.as_str() {
+                "list" => {
+                    for s in &ctx.reg.subjects {
+                        println!("{}\t{}", s.id(), s.ty().render());
+                    }
+                    println!("{} subjects, {} histories, {} families", ctx.reg.subjects.len(), ctx.reg.histories.len(), ctx.reg.families.len());
+                    return 0;
+                }
+                "replay" => return replay::run(&mut ctx, &positional),
+                "C01" => rt::c01(&mut ctx, &mut acc),
+                "C02" => rt::c02(&mut ctx, &mut acc),
+                "C04" => rt::c04(&mut ctx, &mut acc),
+                "C07" => rt::c07(&mut ctx, &mut acc),
+                "C08" => rt::c08(&mut ctx, &mut acc),
+                other => {
+                    eprintln!("unknown check {other}");
+                    return 2;
+                }
+            };
+            ctx.crumb.clear();
+            let mut j = acc.to_json();
+            j.set("check", J::s(ctx.check.clone()));
+            j.set("shard", J::u(ctx.shard as u64));
+            j.set("shards", J::u(ctx.shards as u64));
+            j.set("lane", J::s(ctx.lane.clone()));
+            j.set("seed", J::u(ctx.seed));
+            j.set("wall_s", J::Float(started.elapsed().as_secs_f64()));
+            j.set("alloc_monitor", J::Bool(monitors::alloc::installed()));
+            let text = j.to_string();
+            match &ctx.out {
+                Some(p) => std::fs::write(p, text).expect("write result"),
+                None => println!("{text}"),
+            }
+            code
+        })
+        .expect("spawn worker thread");
+    let code = handle.join().unwrap_or(3);
+    std::process::exit(code);
+}
